@@ -77,7 +77,7 @@ def run(tier):
     rnd = random.Random(common.seed())
     common.build("plain")
     # ---- R1: the implementation-shaped model refines the contract on every small input
-    r = common.tlc("CompIntImpl", "MC_CompIntImpl.cfg", workers=8, timeout=900)
+    r = common.tlc("CompIntImpl", "MC_CompIntImpl.cfg" if tier != "thorough" else common.cfg_variant("MC_CompIntImpl.cfg", common.workdir("c20m"), MaxBuf=5), workers=8, timeout=2400, heap="12g")
     ck.require_ok("CompIntImpl", r)
     ck.add_tlc("CompIntImpl/MC_CompIntImpl.cfg", r, "Alphabet 10 byte classes, MaxBuf 4, both destination kinds, every offset/limit")
     # ---- R3/R2: replay the enumerated family on the real code, validate the trace with TLC
